@@ -70,6 +70,8 @@ def s_res_driven(draw):
     c["tight"] = draw(st.sampled_from([False, False, True]))
     c["crs"] = draw(crs_tags(allow_none=False))
     c["res_form"] = draw(st.sampled_from(["xy", "xy", "scalar"]))
+    # the deprecated spelling of an anchor: align=xy_(...) "basically anchor but in CRS units"
+    c["legacy_align"] = c["entry"] == "from_geopolygon" and isinstance(c["anchor"], (list, float)) and not c["tight"] and draw(st.booleans())
     if c["entry"] == "zoom_to_res":
         # the box that is re-gridded: any orientation (zoom_to(resolution=) re-grids rotated boxes too, _map.py relies
         # on it), any small shape; the request is sometimes the box's *own* resolution
@@ -144,7 +146,16 @@ def o_res(case, T):
         poly = geom.polygon([(l, b), (l + (r_ - l) / 3, t), (r_, b + (t - b) / 2), (r_ - (r_ - l) / 4, b), (l, b)], crs)
         bb = poly.boundingbox
         bbox = [bb.left, bb.bottom, bb.right, bb.top]
-        gb = GeoBox.from_geopolygon(poly, **kw)
+        if case.get("legacy_align"):
+            from odc.geo.types import xy_
+
+            kw2 = dict(kw)
+            kw2.pop("anchor")
+            fx, fy = (case["anchor"][1], case["anchor"][2]) if isinstance(case["anchor"], list) else (case["anchor"], case["anchor"])
+            gb = GeoBox.from_geopolygon(poly, align=xy_(fx * abs(rx), fy * abs(ry)), **kw2)
+            T.cls("legacy_align_argument")
+        else:
+            gb = GeoBox.from_geopolygon(poly, **kw)
     else:  # zoom_to(resolution=): tight cover of the bounding box of an existing box
         from affine import Affine
 
